@@ -71,7 +71,7 @@ def run(rep, tier="quick", replay=None, evidence_dir=None):
     rep.rule("C06.R1", "no Ok constructed in the region dominated by the Err edge of a read result; no unwrap_or/ok() on a read result")
     n_switch, n_q, n_seeds = scan_ok_after_failed_read(prog, rep, "C06.R1")
     rep.floor("C06.R1", "read call results tracked", n_seeds, 150)
-    rep.floor("C06.R1", "`?` propagations + explicit matches of read results", n_q + n_switch, 120)
+    rep.floor("C06.R1", "`?` propagations + explicit matches of read results", n_q + n_switch, 100)
     import c06_vpes
     c06_vpes.run(prog, rep)
     rep.not_decided = ["validate(decode(b)) for concrete values (UTF-8, uuid text, decimal widths)", "re-encode equality"]
